@@ -4,7 +4,7 @@
 EXTENDS Naturals, Sequences, FiniteSets, TLC
 
 Dims == {"seed", "loc", "pre", "order", "proc", "cache"}
-Values == [seed |-> {"0", "1", "2", "random"}, loc |-> {"A", "B"}, pre |-> {"none", "stale", "unrelated"},
+Values == [seed |-> {"0", "1", "2", "random"}, loc |-> {"A", "B"}, pre |-> {"none", "stale", "unrelated", "crlf"},
            order |-> {"natural", "reversed", "shuffled"}, proc |-> {"sub", "inproc"}, cache |-> {"cold", "warm"}]
 Configs == [seed : Values.seed, loc : Values.loc, pre : Values.pre, order : Values.order, proc : Values.proc, cache : Values.cache]
 Cfg(seed, loc, pre, order, proc, cache) == [seed |-> seed, loc |-> loc, pre |-> pre, order |-> order, proc |-> proc, cache |-> cache]
@@ -18,7 +18,7 @@ QuickPlan == <<
     Cfg("2",      "B", "none",      "reversed", "inproc", "cold"),
     Cfg("random", "B", "stale",     "shuffled", "sub",    "warm"),
     Cfg("1",      "A", "unrelated", "shuffled", "inproc", "cold"),
-    Cfg("0",      "B", "unrelated", "natural",  "sub",    "warm") >>
+    Cfg("0",      "B", "crlf",      "natural",  "sub",    "warm") >>
 
 \* thorough: a pairwise covering array (every pair of values of two different dimensions occurs in some run)
 ThoroughPlan == <<
@@ -45,7 +45,11 @@ ThoroughPlan == <<
     Cfg("random", "B", "unrelated", "natural",  "sub",    "cold"),
     Cfg("1",      "B", "none",      "reversed", "sub",    "cold"),
     Cfg("2",      "A", "unrelated", "natural",  "inproc", "warm"),
-    Cfg("random", "B", "stale",     "reversed", "inproc", "warm") >>
+    Cfg("random", "B", "stale",     "reversed", "inproc", "warm"),
+    Cfg("0",      "A", "crlf",      "natural",  "sub",    "cold"),
+    Cfg("1",      "B", "crlf",      "reversed", "inproc", "warm"),
+    Cfg("2",      "A", "crlf",      "shuffled", "sub",    "warm"),
+    Cfg("random", "B", "crlf",      "natural",  "inproc", "cold") >>
 
 AllValuesOccur(plan) == \A d \in Dims : \A v \in Values[d] : \E i \in DOMAIN plan : plan[i][d] = v
 PairwiseCovering(plan) ==
